@@ -400,6 +400,7 @@ def generate(prop, rng, index, tier):
     }
     sc["layout"]["eol"] = "\n"  # line endings are C11's business
     sc["knobs"]["thread"] = rng.random() < 0.15      # the client drives the program from a thread of its own
+    sc["knobs"]["debug_log"] = rng.random() < 0.1    # the embedding application logs at DEBUG level
     if route == "api" and rng.random() < 0.6:
         _api_only(rng, sc)
     if sc["config"] == "faults":
@@ -663,7 +664,8 @@ def _generate_cyclic(rng, index, tier):
         "api_objects": False,
         "layout": random_layout(rng, wild=rng.random() < 0.3),
         "ops": [["RUN"]] if rng.random() < 0.7 else [["RUN"], ["RUN"]], "faults": [],
-        "knobs": {"reclimit": rng.choice([400, 1000, 3000]), "thread": rng.random() < 0.2},
+        "knobs": {"reclimit": rng.choice([400, 1000, 3000]), "thread": rng.random() < 0.2,
+                  "debug_log": rng.random() < 0.15},
     }
     sc["layout"]["eol"] = "\n"
     sc = normalize(sc)
@@ -1119,7 +1121,7 @@ def execute(sc):
     if sc.get("template_twice"):
         res.probe("the same argument objects were used for an earlier program (API template)")
     try:
-        with Hygiene(recursion_limit=sc.get("knobs", {}).get("reclimit")):
+        with Hygiene(recursion_limit=sc.get("knobs", {}).get("reclimit"), debug_logging=sc.get("knobs", {}).get("debug_log")):
             try:
                 log.emit("op-begin", op="BUILD")
                 program, text = _build(sc, Program, probe)
